@@ -381,16 +381,19 @@ fn dissect(patch: &[u8], long: bool) -> Value {
     }
     ev["inflate"] = json!("ok");
     if long {
+        // TLC integers are 32 bit: a size >= 2^24 is logged as 2^30 (it exceeds every block of this tier either way),
+        // a negative size as -1, a seek is clamped to +-2^30 and flagged (seeks do not enter the length judgement)
+        let size = |v: i64| if v < 0 { -1 } else if v >= 1 << 24 { 1 << 30 } else { v };
         let mut triples = vec![];
         let mut big = false;
         for t in ctrl.chunks_exact(24) {
             let (x, y, z) = (offtin(&t[0..8]), offtin(&t[8..16]), offtin(&t[16..24]));
-            big |= x.abs() >= 1 << 24 || y.abs() >= 1 << 24 || z.abs() >= 1 << 24;
-            triples.push(json!([x, y, z]));
+            big |= z.unsigned_abs() > 1 << 30;
+            triples.push(json!([size(x), size(y), z.clamp(-(1 << 30), 1 << 30)]));
         }
         ev["ctrl_rem"] = json!(ctrl.len() % 24);
         ev["ctrl_big"] = json!(big);
-        ev["ctrl3"] = if big { json!([]) } else { Value::Array(triples) };
+        ev["ctrl3"] = Value::Array(triples);
         ev["dlen"] = json!(diff.len());
         ev["elen"] = json!(extra.len());
     } else {
